@@ -8,6 +8,7 @@ import (
 	"go/ast"
 	"go/token"
 	"go/types"
+	"sort"
 	"strings"
 )
 
@@ -548,6 +549,69 @@ func runC03(c *Ctx, r *Report) {
 		r.Check(marked, "R-C03.3", r.Key("R-C03.3", tr, "start-marked", ""), tr.Body.Pos(),
 			"the start entries are marked visited before the walk (or an already marked entry is skipped when it is taken)",
 			"the start entries are put on the stack without being marked visited, and nothing skips an entry that is taken a second time: a start entry that lies in the causal past of another start entry is pushed again when the walk reaches it, taken twice and counted twice — with an amount the iteration stops early and emits fewer entries than asked for and available")
+	}
+
+	// one key derivation for the visited set: every store into it and every lookup in it computes the key from
+	// the entry through the same chain of calls (an entry marked under one representation of its hash and looked
+	// up under another is never found)
+	if visited != nil {
+		shapes := map[string]token.Pos{}
+		var shapeOf func(e ast.Expr, depth int) string
+		shapeOf = func(e ast.Expr, depth int) string {
+			e = ast.Unparen(e)
+			switch x := e.(type) {
+			case *ast.Ident:
+				if v, ok := p.ObjOf(tr, x).(*types.Var); ok && depth < 3 && !v.IsField() {
+					if isNamed(v.Type(), p.pkgPath("iface"), "IPFSLogEntry") {
+						return "entry"
+					}
+					if d := p.SoleDef(tr, v); d != nil {
+						return shapeOf(d, depth+1)
+					}
+				}
+				return "?" + x.Name
+			case *ast.CallExpr:
+				if se, ok := ast.Unparen(x.Fun).(*ast.SelectorExpr); ok && len(x.Args) == 0 {
+					return shapeOf(se.X, depth) + "." + se.Sel.Name + "()"
+				}
+			}
+			return "?" + types.ExprString(e)
+		}
+		note := func(k ast.Expr) {
+			sh := shapeOf(k, 0)
+			if _, ok := shapes[sh]; !ok {
+				shapes[sh] = k.Pos()
+			}
+		}
+		walkNoLit(tr.Body, func(n ast.Node) bool {
+			switch x := n.(type) {
+			case *ast.IndexExpr:
+				if id, ok := ast.Unparen(x.X).(*ast.Ident); ok && p.ObjOf(tr, id) == visited {
+					note(x.Index)
+				}
+			case *ast.CallExpr:
+				if cf := p.Callee(tr, x); cf != nil {
+					if mi, ki, ok := membershipHelper(p, p.ByObj[cf]); ok && mi < len(x.Args) && ki < len(x.Args) {
+						if mid, ok := ast.Unparen(x.Args[mi]).(*ast.Ident); ok && p.ObjOf(tr, mid) == visited {
+							note(x.Args[ki])
+						}
+					}
+				}
+			}
+			return true
+		})
+		var list []string
+		for sh := range shapes {
+			list = append(list, sh)
+		}
+		sort.Strings(list)
+		pos := tr.Body.Pos()
+		if len(list) > 1 {
+			pos = shapes[list[1]]
+		}
+		r.Check(len(list) == 1, "R-C03.3", r.Key("R-C03.3", tr, "one-key-derivation", ""), pos,
+			"every store into and lookup in the visited set derives the key the same way ("+strings.Join(list, "")+")",
+			"the visited set is keyed in "+fmt.Sprint(len(list))+" different ways ("+strings.Join(list, " / ")+"): an entry marked under one form of its hash is not found under the other — the start entries, or entries reached along two paths, are taken twice and counted twice against the requested amount")
 	}
 
 	// R-C03.5
